@@ -80,11 +80,10 @@ theorem reach_linv {cfg : Cfg} {kinds : List Bool} {s : St} (h : Reach cfg kinds
 structure GInv0 (s : St) : Prop where
   normal : s.normal = (if s.req = .done then 1 else 0)
   hreqs : s.hreqs = (if 4 ≤ s.req.rank then 1 else 0)
-  clear : s.clearPending = true → 7 ≤ s.req.rank
   counted : s.counted = true → 4 ≤ s.req.rank
 
 theorem ginv0_step (cfg : Cfg) (s s' : St) (lb : Label) (h : step cfg s lb = some s') (hi : GInv0 s) : GInv0 s' := by
-  obtain ⟨h1, h2, h4, h6⟩ := hi
+  obtain ⟨h1, h2, h6⟩ := hi
   cases lb <;> simp only [step] at h <;> (repeat' split at h) <;> (try cases h) <;>
     (constructor <;> simp_all [Req.rank] <;> try omega)
 
@@ -104,23 +103,25 @@ theorem stage_step (cfg : Cfg) (s s' : St) (lb : Label) (h : step cfg s lb = som
       | exact ⟨h1, h2, h3, h4, h5⟩
       | (constructor <;> simp_all [Req.rank] <;> try omega))
 
-structure ActiveInv (s : St) : Prop where
-  active : s.hActive = true → s.req.rank ≤ 6 ∨ s.clearPending = true
+/-- with `active := 0` before the hand-over, the token never holds the answer while the harness is still active -/
+structure ActiveInv (cfg : Cfg) (s : St) : Prop where
+  handed : cfg.resetFirst = true → 7 ≤ s.req.rank → s.cleared = true
+  clear : s.cleared = true → 6 ≤ s.req.rank ∧ s.hActive = false ∧ s.hStage = 2
 
 theorem active_step (cfg : Cfg) (s s' : St) (lb : Label) (h : step cfg s lb = some s') (hs : StageInv cfg s)
-    (hi : ActiveInv s) : ActiveInv s' := by
-  obtain ⟨h3⟩ := hi
+    (hi : ActiveInv cfg s) : ActiveInv cfg s' := by
+  obtain ⟨h3, h4⟩ := hi
   obtain ⟨g1, g2, g3, g4, g5⟩ := hs
   cases lb <;> simp only [step] at h <;> (repeat' split at h) <;> (try cases h) <;>
     (first
-      | exact ⟨h3⟩
+      | exact ⟨h3, h4⟩
       | (constructor <;> simp_all [Req.rank] <;> try omega))
 
 structure GInv (cfg : Cfg) (s : St) : Prop where
   normal : s.normal = (if s.req = .done then 1 else 0)
   hreqs : s.hreqs = (if 4 ≤ s.req.rank then 1 else 0)
-  active : s.hActive = true → s.req.rank ≤ 6 ∨ s.clearPending = true
-  clear : s.clearPending = true → 7 ≤ s.req.rank
+  clear : s.cleared = true → 6 ≤ s.req.rank ∧ s.hActive = false ∧ s.hStage = 2
+  handed : cfg.resetFirst = true → 7 ≤ s.req.rank → s.cleared = true
   stage : 7 ≤ s.req.rank → s.hStage = 2
   stage2 : s.hStage ≤ 2
   stage3 : 2 ≤ s.req.rank → (if cfg.early = true then s.hStage = 2 else 1 ≤ s.hStage)
@@ -129,14 +130,14 @@ structure GInv (cfg : Cfg) (s : St) : Prop where
   counted : s.counted = true → 4 ≤ s.req.rank
 
 theorem reach_ginv {cfg : Cfg} {kinds : List Bool} {s : St} (h : Reach cfg kinds s) : GInv cfg s := by
-  have h0 : GInv0 s ∧ StageInv cfg s ∧ ActiveInv s := by
+  have h0 : GInv0 s ∧ StageInv cfg s ∧ ActiveInv cfg s := by
     induction h with
     | init =>
       refine ⟨?_, ?_, ?_⟩ <;> constructor <;> simp [init, Req.rank]
     | step _ hs ih =>
       exact ⟨ginv0_step _ _ _ _ hs ih.1, stage_step _ _ _ _ hs ih.2.1, active_step _ _ _ _ hs ih.2.1 ih.2.2⟩
-  obtain ⟨⟨a1, a2, a3, a4⟩, ⟨b1, b2, b3, b4, b5⟩, ⟨c1⟩⟩ := h0
-  exact ⟨a1, a2, c1, a3, b1, b2, b3, b4, b5, a4⟩
+  obtain ⟨⟨a1, a2, a4⟩, ⟨b1, b2, b3, b4, b5⟩, ⟨c1, c2⟩⟩ := h0
+  exact ⟨a1, a2, c2, c1, b1, b2, b3, b4, b5, a4⟩
 
 /-- before the token reaches the host nothing has started -/
 def IdleInv (s : St) : Prop := s.req = .none → ∀ l ∈ s.ls, l.phase = .idle
@@ -315,10 +316,14 @@ theorem quiet_no_internal (cfg : Cfg) (s : St) (hq : quiet cfg s = true) (l : La
     cases hr : s.req <;> cases he : cfg.early <;> rcases hst : s.hStage with _ | _ | _ | n <;> simp_all
   case reqStart => cases hr : s.req <;> simp_all
   case respond => cases hr : s.req <;> simp_all
-  case forward => cases hr : s.req <;> rcases hst : s.hStage with _ | _ | _ | n <;> simp_all
+  case forward =>
+    cases hr : s.req <;> rcases hst : s.hStage with _ | _ | _ | n <;> cases hrf : cfg.resetFirst <;>
+      cases hcl : s.cleared <;> simp_all
   case hostTake => cases hr : s.req <;> simp_all
   case decrement => cases hr : s.req <;> cases hc : s.counted <;> simp_all
-  case clear => simp [h7]
+  case clear =>
+    cases hr : s.req <;> rcases hst : s.hStage with _ | _ | _ | n <;> cases hrf : cfg.resetFirst <;>
+      cases hcl : s.cleared <;> simp_all
   case taskTake => cases ht : s.tRun <;> cases htq : s.tq <;> simp_all
   all_goals
     rename_i i
@@ -346,12 +351,18 @@ theorem internal_none_quiet (cfg : Cfg) (s : St) (h : ∀ l : Label, l.internal 
   · cases hr : s.req <;> simp_all
   · cases hr : s.req <;> cases he : cfg.early <;> rcases hst : s.hStage with _ | _ | _ | n <;> simp_all
   · cases he : cfg.early <;> rcases hst : s.hStage with _ | _ | _ | n <;> simp_all
-  · cases hr : s.req <;> rcases hst : s.hStage with _ | _ | _ | n <;> simp_all
+  · clear a0 a1 a2 a3 a4 a5 a8
+    cases hr : s.req <;> simp only [hr, Bool.false_and, Bool.not_false, Bool.true_and]
+    rcases hst : s.hStage with _ | _ | _ | n <;> simp
+    exfalso
+    cases hrf : cfg.resetFirst <;> cases hcl : s.cleared <;> simp [hr, hst, hrf, hcl] at a6 a7
+  · clear a0 a1 a2 a3 a4 a5 a6 a8
+    cases hcl : s.cleared <;> cases hrf : cfg.resetFirst <;> simp
+    cases hr : s.req <;> simp [hr, hcl, hrf] at a7 ⊢
   · cases ht : s.tRun <;> cases htq : s.tq <;> simp_all
     rename_i hd tl
     cases hd <;> simp_all
   · cases hr : s.req <;> cases hc : s.counted <;> simp_all
-  · cases hc : s.clearPending <;> simp_all
   · intro l hl
     obtain ⟨i, hi⟩ := List.mem_iff_getElem?.mp hl
     have b1 := h (.arm i) rfl
@@ -478,10 +489,11 @@ theorem quiet_tq (cfg : Cfg) (s : St) (hq : quiet cfg s = true) : s.tRun = false
     | nil => rfl
     | cons hd tl => cases hd <;> simp [ht, htq] at a
 
-theorem quiet_clear (cfg : Cfg) (s : St) (hq : quiet cfg s = true) : s.clearPending = false := by
+theorem quiet_clear (cfg : Cfg) (s : St) (hq : quiet cfg s = true) (hd : s.req = .done) :
+    s.cleared = true ∨ cfg.resetFirst = true := by
   have a := quiet_no_internal cfg s hq .clear rfl
-  simp only [step] at a
-  cases h : s.clearPending <;> simp_all
+  simp only [step, hd] at a
+  cases hc : s.cleared <;> cases hr : cfg.resetFirst <;> simp_all
 
 /-- with `active := 1` stored AFTER `activity.NextAction` and events gated by `active`: nothing reaches a boundary
 event before the activity has its first message, so that message is the first in the activity's inbox -/
